@@ -20,6 +20,12 @@ CHECKS = {
  "C03": ("exploration", "bounded-exhaustive differential enumeration of token variants (block content kept/removed/check-free/emptied/swapped) on the real authorizer",
          "For every block content X (<=2 of 16 fact/rule items), block position, 1-2 probes in every location (authorizer check, authority check, other block's check, allow/deny policy), the token variants with and without X and with the two blocks swapped are authorized and queried; outcome class, failed checks outside the block and a 6-rule Query panel (before and after Authorize) must coincide. The visibility of authority-level facts in blocks is decided by C04's S3 scope against the reference.",
          "Differential oracle. The failed-check list is parsed from the error text. Tokens with 3+ later blocks are outside the scope.", "DESIGN.md §4-C03", "ssx"),
+ "C12": ("exploration", "bounded-exhaustive differential enumeration of presentation variants (permutations, renamings, duplication, repetition) on the real authorizer",
+         "For every base scenario of a product of authorizer/authority/block contents, every permutation of every collection (facts, rules, checks, queries in a check, body atoms), six consistent variable renamings, each fact duplicated, and Authorize repeated three times with a Query panel after each call are run on the library; outcome class and all query result sets must equal the canonical presentation's. Thorough adds every pair of such changes.",
+         "Differential oracle between presentations. Policies keep their order (the property fixes it). Scenarios with 4+ items per collection are outside the scope.", "DESIGN.md §4-C12", "ssx"),
+ "C13": ("model_checking", "explicit enumeration of all operation histories (add content, authorize/query, reset) up to depth 2-3 on the real authorizer with a differential oracle",
+         "All histories of 2 rounds over 24 contents x 3 actions x 4 tokens (and 3 rounds: over an 8-content sub-alphabet in quick, all 24 in thorough) are executed on one reused authorizer with Reset between rounds; the last round's Authorize outcome, failed checks and Query panel must equal those of a fresh authorizer given only that round's content. Every explored history is a run of the implementation.",
+         "Differential oracle against a fresh authorizer. Histories longer than 3 rounds are outside the bound.", "DESIGN.md §4-C13", "ssx"),
 }
 PENDING = "check not built yet in this revision (work in progress; see DESIGN.md §4 for the planned bounded-exhaustive check)"
 def main():
